@@ -196,3 +196,40 @@ Example refinement_error_example :
   end.
 Proof. vm_compute. repeat split. Qed.
 Print Assumptions refinement_error_example.
+
+(* ---- the fragment, construct by construct ---------------------------------- *)
+(* match, return (also in operand position), for, closures, and break /
+   continue as statements of a block are IN the fragment of the theorems
+   above: *)
+Example fragment_covers_match_return_for_break :
+  in_fragment (EMatch (mt true) (v 5) [ (6%N, (0, 0)%N, Some 7%N, [v 7]); (0%N, (0, 0)%N, None, [i 0]) ]) = true /\
+  in_fragment (EFun (mt true) [13%N] [EBin (mt true) (BInt OAdd) (i 1) (EReturn (mt true) (Some (v 13)))]) = true /\
+  in_fragment (EFor (mt true) 13%N (v 5)
+                 [ EIf (mt false) (v 6) [EContinue (mt false)] (Some [EBreak (mt false)]);
+                   EMatch (mt false) (v 5) [ (0%N, (0, 0)%N, None, [EBreak (mt false)]) ] ]) = true.
+Proof. repeat split; reflexivity. Qed.
+Print Assumptions fragment_covers_match_return_for_break.
+
+(* The side condition "break / continue only as a statement of a block, not
+   inside an operand" is NECESSARY: the known finding
+   C05:break-continue-in-operand-position on the model.
+     let x = [while True { [if True { break } else { 2 }, 1] }, 5]
+   is well annotated, outside the fragment, and the machine (like the real
+   interpreter) answers [Unit, 1] where the reference semantics answers
+   [Unit, 5]: the refinement theorem is FALSE without the side condition. *)
+Definition ex_operand_break : list expr :=
+  [ EList (mt true)
+      [ EWhile (mt true) (v 24)
+          [ EList (mt false) [ EIf (mt true) (v 24) [EBreak (mt true)] (Some [i 2]); i 1 ] ];
+        i 5 ] ].
+Definition ex_p2 : prog := {| globals := (24%N, vtrue) :: globals ex_p; funs := [] |}.
+
+Example break_in_operand_position_refuted :
+  prog_good ex_p2 = true /\ well_annotated_toplevel ex_operand_break = true /\
+  forallb in_fragment ex_operand_break = false /\
+  match ref_run ex_p2 50 ex_operand_break, run ex_p2 1000 (init_state ex_operand_break None None) with
+  | (Ok rv, _), RDone mv _ => rv = VList [vunit; VInt 5] /\ mv = VList [vunit; VInt 1] /\ mv <> rv
+  | _, _ => False
+  end.
+Proof. vm_compute. repeat split. discriminate. Qed.
+Print Assumptions break_in_operand_position_refuted.
